@@ -61,7 +61,7 @@ def gen_program(rng, kind=None):
     return {"kind": kind, "p": rng.randint(0, n), "n": n, # (EOFError, the last entry, is the recorded finding: kept rare, and left to the plain "body" kind, where no 15 s wait for a warning is involved)
             "exc": (len(EXCS) - 1) if (rng.random() < 0.03 and kind != "body_peer_dropped") else rng.randrange(len(EXCS) - 1),
             "dropped": rng.random() < 0.4,
-            "consume": rng.choice(("receive", "waitclose_first")), "siblings": rng.choice((0, 2, 3))}
+            "consume": rng.choice(("receive", "waitclose_first", "concurrent")), "siblings": rng.choice((0, 2, 3))}
 
 
 def body_source(hid, p, exc):
@@ -228,6 +228,23 @@ def run_program(res: Result, lab, prog, label, hid):
                 except BaseException as e:  # noqa
                     first_error = f"{type(e).__name__}: {e}"
             nremote = 0
+            wouts: list = []
+            wths = []
+            if prog["consume"] == "concurrent":
+                # two more consumers of the same channel, blocked in waitclose() while this thread receives: the one
+                # failure wakes all of them and is handed to exactly one
+                def waiter():
+                    try:
+                        ch.waitclose(15)
+                        wouts.append("returned")
+                    except RemoteError as e:
+                        wouts.append(e)
+                    except BaseException as e:  # noqa
+                        wouts.append(f"{type(e).__name__}: {e}")
+
+                wths = [threading.Thread(target=waiter, daemon=True) for _ in range(2)]
+                for t in wths:
+                    t.start()
             try:
                 while True:
                     got.append(ch.receive(5))
@@ -248,6 +265,18 @@ def run_program(res: Result, lab, prog, label, hid):
                 terminal = "EOFError"
             except BaseException as e:  # noqa
                 terminal = f"{type(e).__name__}: {e}"
+            for t in wths:
+                t.join(20)
+            if wths:
+                res.count("concurrent_consumer_programs")
+                if len(wouts) != len(wths):
+                    res.violation(m("concurrent-waitclose-still-blocked"), label)
+                for o in wouts:
+                    if isinstance(o, RemoteError):
+                        nremote += 1
+                        first_error = first_error or o
+                    elif o != "returned":
+                        res.violation(m("concurrent-waitclose-ended-with-" + o.split(":")[0]), f"{label}: {o}")
             if got != [(hid, i) for i in range(p)]:
                 res.violation(m("items-before-failure-wrong"), f"{label}: got {short(got)} want {p} items")
             if not isinstance(first_error, RemoteError):
@@ -372,8 +401,11 @@ def run_shard(spec):
         else:
             lines = imodel.function_lines(gb.ChannelFactory._local_receive, gb.ChannelFactory._local_close, gb.ChannelFactory._no_longer_opened,
                                           gb.WorkerGateway.executetask, gb.Message._channel_close_error, gb.Channel.close, gb.geterrortext, gb.Channel.__del__)
-            res.info["sweep_lines"] = len(lines)
+            # the consumer side: stalls there only matter when several consumers share the channel
+            clines = imodel.function_lines(gb.Channel._getremoteerror, gb.Channel.receive, gb.Channel.waitclose)
+            res.info["sweep_lines"] = len(lines) + len(clines)
             todo = [(ln, k, kind) for ln in lines for k in spec["ks"] for kind in KINDS]
+            todo += [(ln, k, "body+concurrent") for ln in clines for k in (1, 2, 3)]
             todo = [t for i, t in enumerate(todo) if i % spec["parts"] == spec["part"]]
         for i, (ln, k, kind) in enumerate(todo):
             if res.enough(4):
@@ -388,7 +420,14 @@ def run_shard(spec):
                     cfg = rng.choice(((True, True), (False, True), (False, False)))
                     lab.gw.reconfigure(py2str_as_py3str=cfg[0], py3str_as_py2str=cfg[1])
                     res.count("labs_with_reconfigured_gateway")
-            prog = gen_program(rng, kind)
+            if kind == "body+concurrent":
+                prog = gen_program(rng, "body")
+                prog["consume"] = "concurrent"
+                prog["siblings"] = 0
+                if prog["exc"] == len(EXCS) - 1:
+                    prog["exc"] = 0
+            else:
+                prog = gen_program(rng, kind)
             if ln is None and i == 0 and spec["shard"] == 0:
                 prog.update(kind="body", exc=len(EXCS) - 1)  # the recorded EOFError finding is exercised in every run
             hid += 1
